@@ -119,7 +119,7 @@ func checkC01(p *Prog, c *Check) {
 			if spec.will == 1 {
 				wp = will
 			}
-			st, why := p.buildState(tn, spec.choose, wp)
+			st, why := p.buildStateSpec(tn, spec, nil, wp)
 			if st == nil {
 				if bad["R1.1"] == "" {
 					bad["R1.1"] = "state " + spec.name + ": " + why
@@ -156,8 +156,11 @@ func checkC01(p *Prog, c *Check) {
 						roots := []string{v.addr}
 						if v.k == 's' {
 							// elements may be aliases of storage elsewhere (appended arguments)
-							for j := int64(0); j < v.i; j++ {
+							for j := int64(0); j < v.i && j < 16; j++ { // lists built by the state generator have at most a few elements; byte strings have none
 								ep := fmt.Sprintf("%s[%d]", v.addr, v.off+j)
+								if _, has := st.Mem[ep]; !has {
+									break
+								}
 								for hop := 0; hop < 4; hop++ {
 									ev, ok := st.Mem[ep]
 									if !ok || ev.k != 'S' || ev.addr == "" || ev.addr == ep {
